@@ -1,6 +1,120 @@
 //! Stubs, contracts and independent limb-level reference arithmetic shared by all harnesses.
+//!
+//! Every harness body is ordinary Rust over the `sym` input source below: compiled by Kani the
+//! inputs are `kani::any()` (symbolic, the solver decides); compiled natively (src/bin/replay.rs)
+//! the very same body runs on the REAL kernels (no stubs exist natively) with the inputs taken
+//! from a counterexample, which is how a solver model is replayed before it is reported.
 pub use sm9_core::verif_hooks::*;
 pub use sm9_core::{One, Zero};
+
+pub mod sym {
+    #[cfg(not(kani))]
+    use std::cell::RefCell;
+    #[cfg(not(kani))]
+    thread_local! {
+        pub static INPUT: RefCell<(Vec<Vec<u8>>, usize)> = RefCell::new((Vec::new(), 0));
+        pub static EXHAUSTED: RefCell<bool> = RefCell::new(false);
+    }
+    #[cfg(not(kani))]
+    pub fn set_input(v: Vec<Vec<u8>>) {
+        INPUT.with(|i| *i.borrow_mut() = (v, 0));
+        EXHAUSTED.with(|e| *e.borrow_mut() = false);
+    }
+    #[cfg(not(kani))]
+    fn next(n: usize) -> Vec<u8> {
+        INPUT.with(|i| {
+            let mut i = i.borrow_mut();
+            let k = i.1;
+            i.1 += 1;
+            match i.0.get(k) {
+                Some(v) if v.len() == n => v.clone(),
+                // past the recorded inputs: these are values that only a contract stub consumed
+                _ => {
+                    EXHAUSTED.with(|e| *e.borrow_mut() = true);
+                    vec![0u8; n]
+                }
+            }
+        })
+    }
+    #[cfg(kani)]
+    pub fn u64() -> u64 {
+        kani::any()
+    }
+    #[cfg(not(kani))]
+    pub fn u64() -> u64 {
+        let b = next(8);
+        u64::from_le_bytes([b[0], b[1], b[2], b[3], b[4], b[5], b[6], b[7]])
+    }
+    #[cfg(kani)]
+    pub fn u8() -> u8 {
+        kani::any()
+    }
+    #[cfg(not(kani))]
+    pub fn u8() -> u8 {
+        next(1)[0]
+    }
+    #[cfg(kani)]
+    pub fn bool() -> bool {
+        kani::any()
+    }
+    #[cfg(not(kani))]
+    pub fn bool() -> bool {
+        next(1)[0] & 1 == 1
+    }
+    #[cfg(kani)]
+    pub fn usize() -> usize {
+        kani::any()
+    }
+    #[cfg(not(kani))]
+    pub fn usize() -> usize {
+        let b = next(8);
+        u64::from_le_bytes([b[0], b[1], b[2], b[3], b[4], b[5], b[6], b[7]]) as usize
+    }
+    #[cfg(kani)]
+    pub fn assume(c: bool) {
+        kani::assume(c)
+    }
+    #[cfg(not(kani))]
+    pub fn assume(c: bool) {
+        if !c {
+            std::panic::panic_any(super::AssumeFailed);
+        }
+    }
+    pub fn bytes<const N: usize>() -> [u8; N] {
+        let mut b = [0u8; N];
+        let mut i = 0;
+        while i < N {
+            b[i] = u8();
+            i += 1;
+        }
+        b
+    }
+}
+pub struct AssumeFailed;
+#[cfg(kani)]
+#[macro_export]
+macro_rules! cover {
+    ($c:expr, $m:expr) => {
+        kani::cover!($c, $m)
+    };
+}
+#[cfg(not(kani))]
+#[macro_export]
+macro_rules! cover {
+    ($c:expr, $m:expr) => {
+        let _ = $c;
+    };
+}
+/// harnesses!{ registry_fn; #[kani attrs] fn name() { body } ... }
+#[macro_export]
+macro_rules! harnesses {
+    ($reg:ident; $( $(#[$m:meta])* fn $name:ident() $body:block )*) => {
+        $( #[cfg_attr(kani, kani::proof)] $(#[cfg_attr(kani, $m)])* pub fn $name() { $body; $crate::cover!(true, "end of harness reached"); } )*
+        pub fn $reg() -> Vec<(&'static str, fn())> {
+            vec![ $( (stringify!($name), $name as fn()) ),* ]
+        }
+    };
+}
 
 // ---- stub 1: Intel ADC/SBB intrinsics (ark-ff `asm` feature) by the u128 formula ark-ff
 // itself uses when the feature is off.
@@ -50,10 +164,16 @@ pub fn is0(a: &[u64; 4]) -> bool {
     a[0] == 0 && a[1] == 0 && a[2] == 0 && a[3] == 0
 }
 pub fn any4() -> [u64; 4] {
-    [kani::any(), kani::any(), kani::any(), kani::any()]
+    [sym::u64(), sym::u64(), sym::u64(), sym::u64()]
 }
 pub fn any_below(p: &[u64; 4]) -> [u64; 4] {
     let a = any4();
+    sym::assume(lt(&a, p));
+    a
+}
+#[cfg(kani)]
+fn havoc_below(p: &[u64; 4]) -> [u64; 4] {
+    let a: [u64; 4] = [kani::any(), kani::any(), kani::any(), kani::any()];
     kani::assume(lt(&a, p));
     a
 }
@@ -120,25 +240,30 @@ pub fn ref_half(a: &[u64; 4], p: &[u64; 4]) -> [u64; 4] {
 }
 
 // ---- stub 2: arithmetic contracts (justified by engine L): result is some value below the modulus
+#[cfg(kani)]
 pub fn mul_havoc(this: &mut U256, _other: &U256, modulo: &U256, _inv: u64) {
     let m = [modulo[0], modulo[1], modulo[2], modulo[3]];
-    *this = U256::from(any_below(&m));
+    *this = U256::from(havoc_below(&m));
 }
+#[cfg(kani)]
 pub fn square_havoc(this: &mut U256, modulo: &U256, _inv: u64) {
     let m = [modulo[0], modulo[1], modulo[2], modulo[3]];
-    *this = U256::from(any_below(&m));
+    *this = U256::from(havoc_below(&m));
 }
+#[cfg(kani)]
 pub fn invert_havoc(this: &mut U256, modulo: &U256, _r2: &U256) {
     assert!(!this.is_zero(), "invert called on zero");
     let m = [modulo[0], modulo[1], modulo[2], modulo[3]];
-    *this = U256::from(any_below(&m));
+    *this = U256::from(havoc_below(&m));
 }
+#[cfg(kani)]
 pub fn sop_havoc<const T: usize>(_a: &[RawFq; T], _b: &[RawFq; T]) -> RawFq {
-    fq_from_raw(any_below(&Q))
+    fq_from_raw(havoc_below(&Q))
 }
+#[cfg(kani)]
 pub fn divrem_havoc(_x: &U512, modulo: &U256) -> (Option<U256>, U256) {
     let m = [modulo[0], modulo[1], modulo[2], modulo[3]];
-    (None, U256::from(any_below(&m)))
+    (None, U256::from(havoc_below(&m)))
 }
 // deterministic, cheap, non-commutative "tag" used to check operand routing of multiplicative
 // operator forms: every form must reach U256::mul with (self, other, modulus) in this order.
